@@ -668,11 +668,21 @@ class C09(common.Prop):
         import translate_c09
         return translate_c09.gen()
 
+    def zero_filled_kind(self, backend):
+        import translate_c09
+        import translate_py
+        rel = "torch/masked/tensor.py" if backend == "torch" else "tensorflow/masked/tensor.py"
+        try:
+            mt = translate_py.cls(translate_py.parse(rel), "MaskedTensor")
+            return translate_c09.zf_kind(translate_c09.ret_expr(translate_py.fn(mt, "zero_filled"), rel), rel)
+        except common.TranslateError:
+            return "unknown"
+
     def translate_outputs(self):
         return ["Gen_C09.v"]
 
     def gen_cases(self, rng, tier):
-        n = 600 if tier == "quick" else 30000
+        n = 600 if tier == "quick" else 60000
         import translate_c09
         changed = translate_c09.digests_changed()
         if changed:      # DESIGN 3(c): a changed anchor never alarms by itself, it buys a larger differential run
@@ -755,9 +765,10 @@ class C09(common.Prop):
         return None
 
     def classify(self, case, failure):
-        nonfinite = failure.get("filling") in ("nan", "pinf", "ninf", "huge", "mixed")
+        # F9 is keyed by its call site: the backend's MaskedTensor.zero_filled multiplies by the mask (a finite filling
+        # reaches the same defect through 1/0 = inf in the masked lanes); anything else gets its own key
         ends_in_zero_fill = case["op"] in ("zero_filled", "rep_distance", "rep_angle", "rep_inner_angle", "rep_point_line", "rep_points")
-        if case["backend"] in ("torch", "tf") and ends_in_zero_fill and nonfinite:
+        if case["backend"] in ("torch", "tf") and ends_in_zero_fill and self.zero_filled_kind(case["backend"]) == "ZF_mul":
             return "masked-tensor-zero-filled-by-multiplication"
         return "%s-%s-%s" % (failure.get("kind", "other"), case["op"], case["backend"])
 
